@@ -62,3 +62,9 @@ def run_field(case):
 def run_strop(case):
     from impl.c01 import run_strop as f
     return f(case)
+
+def run_rxescape(case):
+    from sigma.types import SigmaRegularExpression, SigmaRegularExpressionFlag
+    fl = {"i": SigmaRegularExpressionFlag.IGNORECASE, "m": SigmaRegularExpressionFlag.MULTILINE, "s": SigmaRegularExpressionFlag.DOTALL}
+    r = SigmaRegularExpression(case["s"], {fl[c] for c in case["flags"]})
+    return {"q": r.escape(tuple(case["escaped"]), case["ec"], case["eec"], case["fp"])}
